@@ -1,6 +1,7 @@
 (* C08 -- deleting and renaming affect only what was named.  Statements only. *)
 From Coq Require Import ZArith NArith List Bool String.
 From DM Require Import Base.PyVal Spec.Nf Spec.Table Spec.Ops Proofs.TableFacts Proofs.TakeFacts Proofs.OpFacts.
+From DM Require Import Model.LTable Gen.KCore Model.Core Proofs.CoreRefine.
 Import ListNotations.
 
 (* del dm[i, j, ...]: exactly the other rows remain, in their order, with all cells *)
@@ -32,6 +33,15 @@ Theorem C08_delcol_error_changes_nothing : forall w ti name e,
   snd (step w (ODelCol ti name)) = Err e -> fst (step w (ODelCol ti name)) = w /\ e = ValueError.
 Proof. exact delcol_err_unchanged. Qed.
 Print Assumptions C08_delcol_error_changes_nothing.
+
+(* the implementation's row deletion (ids of the remaining rows, then _selectrowid by id) is the positional deletion *)
+Theorem C08_l1_delrows_refines : forall t dead r,
+  inv_b t = true -> delrows t dead = Some r ->
+  exists t', take (filter (fun p => negb (mem_nat p dead)) (seq 0 (nrows_l t))) (abs t) = Some t'
+             /\ abs r = {| fam := fam (abs t); ids := ids t'; names := names t'; slots := slots t';
+                           tsorted := tsorted (abs t); dflt := dflt (abs t) |}.
+Proof. exact delrows_refines. Qed.
+Print Assumptions C08_l1_delrows_refines.
 
 Theorem C08_keeps_invariant : forall w o, wwf w -> wwf (fst (step w o)).
 Proof. exact step_wf. Qed.
